@@ -98,6 +98,10 @@ def _iso_spec(r, variant):
     for key in r.sample(["user", "lab", "project", "note", "flag", "reading"], r.randint(0, 4)):
         meta[key] = {"user": "someone", "lab": "lab 7", "project": "p-x", "note": "texte libre", "flag": r.random() < 0.5, "reading": round(r.uniform(-5, 5), 4) + 0.0}[key]  # (+0.0: no negative zero, SQLite does not keep its sign)
     spec = {"kind": kind, "material": r.choice(MAT_NAMES), "adsorbate": r.choice(ADS_NAMES), "temperature": round(r.uniform(70, 400), 2), "meta": meta, "variant": variant}
+    if r.random() < 0.35:
+        # stored in degrees Celsius (the value in the file is the one in the isotherm's own unit)
+        spec["temperature_unit"] = "°C"
+        spec["temperature"] = round(spec["temperature"] - 273.15, 2)
     if kind.startswith("point"):
         n = r.randint(2, 12)
         p, l, b = gen.point_data(r, n, two_branches=(kind == "point-des" and n >= 4))
@@ -127,6 +131,13 @@ def _build_iso(spec):
     kw = dict(gen.DEFAULT_UNITS)
     kw.update(copy.deepcopy(spec["meta"]))
     kw.update(material=spec["material"], adsorbate=spec["adsorbate"], temperature=spec["temperature"])
+    if spec.get("temperature_unit"):
+        kw["temperature_unit"] = spec["temperature_unit"]
+    if spec.get("big"):
+        # a long (high-resolution / kinetic) recording: its upload dirties more pages than SQLite's page cache holds
+        import numpy
+        p = numpy.linspace(1e-6, 1.0, int(spec["big"])) * (1 + 1e-3 / 3)
+        return pygaps.PointIsotherm(pressure=p, loading=numpy.sqrt(p) * 7 / 3, branch="ads", **kw)
     if spec["kind"].startswith("point"):
         cols = {"pressure": spec["pressure"], "loading": spec["loading"]}
         cols.update(spec.get("extra", {}))
